@@ -431,6 +431,36 @@ theorem replace_self_list : ∀ (ks : List Tree) (i : Nat) (p : List Nat) (u : T
     simp only [replAtList, replace_self_list ks i p u h]
 end
 
+/-! ### the block header in a statement replacement -/
+
+/-- **Outside the whole-`orelse` case the block header is untouched**: if a statement of the block remains before or
+after the replaced range, or the block is not the `orelse` of an `If`, the replacement never turns `else:` into `elif`
+nor an `elif` into `else:`. -/
+theorem header_untouched (c : ElifCase)
+    (h : c.hasPre = true ∨ c.hasPost = true ∨ c.isOrelse = false ∨ c.tgtIsIf = false) : elifDecision c = .keep := by
+  unfold elifDecision
+  rcases h with h | h | h | h <;> simp [h]
+
+/-- **An `elif` is written only where the grammar allows one**: the whole `orelse` is replaced by a single `If`. -/
+theorem toElif_sound (c : ElifCase) (h : elifDecision c = .toElif) : elifAllowed c = true := by
+  unfold elifDecision at h
+  unfold elifAllowed
+  split at h
+  · next hc =>
+    split at h
+    · next hd =>
+      simp only [Bool.and_eq_true] at hc hd
+      simp [hc.1.1.1, hc.1.1.2, hc.1.2, hc.2, hd.1.2, hd.2]
+    · split at h <;> cases h
+  · cases h
+
+/-- and with `elif_` on it is written whenever it is allowed (an existing `elif` replaced by its copy stays one). -/
+theorem toElif_complete (c : ElifCase) (h : elifAllowed c = true) (ho : c.optElif = true) : elifDecision c = .toElif := by
+  unfold elifAllowed at h
+  simp only [Bool.and_eq_true] at h
+  unfold elifDecision
+  simp [h.1.1.1.1.1, h.1.1.1.1.2, h.1.1.1.2, h.1.1.2, h.1.2, h.2, ho]
+
 /-! ### non-vacuity -/
 
 /-- a classification meeting the hypotheses: ASCII 0x20..0x7e printable, everything else not -/
@@ -462,6 +492,9 @@ example : commentPut k0 true "".toList "c".toList = .valueError := by decide
 example : commentPut k0 false "".toList "a\rb".toList = .valueError := by decide
 example : commentPut k0 true "  # old".toList "# a\x00b".toList = .valueError := by decide
 example : ("  # old".toList).all lineOK = true ∧ commentPut k0 false "  # old".toList "a\x0cb".toList = .ok "  # a\x0cb".toList := by decide
+example : elifDecision ⟨false, true, true, true, true, false, 1, true⟩ = .keep := by decide      -- first of several: no elif
+example : elifDecision ⟨false, false, true, true, true, false, 1, true⟩ = .toElif := by decide
+example : elifDecision ⟨false, false, true, true, false, true, 1, true⟩ = .toElse := by decide
 example : putSlice (putSlice [1, 2, 3, 4, 5] 1 3 []) 1 1 (slice [1, 2, 3, 4, 5] 1 3) = [1, 2, 3, 4, 5] := by decide
 example : subtreeAt (.node 0 [.node 1 [], .node 2 [.node 3 []]]) [1, 0] = some (.node 3 []) := by rfl
 
